@@ -97,7 +97,12 @@ func staticCallersOf(c *Ctx, name string) []string {
 
 // ApplyBaseline records per-function not-decided instances against the frozen baseline.
 func (r *Result) ApplyBaseline(verifDir, rule, what string, perFn map[string][]undecidedItem) {
-	b, err := loadBaseline(verifDir, rule)
+	r.ApplyBaselineFile(verifDir, rule, rule, what, perFn)
+}
+
+// ApplyBaselineFile: the same with the baseline stored under another name (one analysis shared by rules of two properties).
+func (r *Result) ApplyBaselineFile(verifDir, file, rule, what string, perFn map[string][]undecidedItem) {
+	b, err := loadBaseline(verifDir, file)
 	if err != nil {
 		r.Errorf("baseline %s: %v", rule, err)
 		return
@@ -119,7 +124,7 @@ func (r *Result) ApplyBaseline(verifDir, rule, what string, perFn map[string][]u
 		}
 		os.MkdirAll(filepath.Join(verifDir, "baselines"), 0o755)
 		data, _ := json.MarshalIndent(nb, "", " ")
-		os.WriteFile(filepath.Join(verifDir, "baselines", rule+".json"), append(data, '\n'), 0o644)
+		os.WriteFile(filepath.Join(verifDir, "baselines", file+".json"), append(data, '\n'), 0o644)
 		if baselineCtx != nil {
 			writeReviewedFunctions(verifDir, baselineCtx)
 		}
